@@ -237,6 +237,7 @@ fn macro_expand(
             segments: segments.clone(),
             macros: context.macros.clone(),
             messages: context.messages.clone(),
+            depth: 0,
         };
         parse_iter(&mut iter, &parse_context)?;
     } else {
